@@ -252,7 +252,14 @@ impl PartialEq for SassNumber {
             return false;
         }
 
-        self.num == other.num.convert(&other.unit, &self.unit)
+        // compare in the canonical unit of the dimension so that the tolerance does
+        // not depend on which operand is on the left
+        match (self.unit.canonical(), other.unit.canonical()) {
+            (Some(unit), Some(other_unit)) if unit == other_unit => {
+                self.num.convert(&self.unit, &unit) == other.num.convert(&other.unit, &unit)
+            }
+            _ => self.num == other.num.convert(&other.unit, &self.unit),
+        }
     }
 }
 
